@@ -232,3 +232,19 @@ def run(ctx) -> None:  # noqa: F811
     _inner_run_c19c(ctx)
     if err is not None:
         raise err
+
+
+# ---- added after the seeded change C19-r4seed2: a block is rebuilt from its own seeds, unchanged
+_inner_run_c19d = run
+
+
+def run(ctx) -> None:  # noqa: F811
+    from ..rules import seedrebuild
+
+    ctx.rule("R-SEEDREBUILD", seedrebuild.__doc__.split("\n\n", 1)[1])
+    n = seedrebuild.check(ctx, ctx.repo.method("abtem.inelastic.phonons", "FrozenPhonons", "_from_partitioned_args_func"),
+                          ("cls", "FrozenPhonons"), "seed", "num_configs")
+    n += seedrebuild.check(ctx, ctx.repo.method("abtem.potentials.iam", "CrystalPotential", "_from_partitioned_args_func"),
+                           ("cls", "CrystalPotential"), "seeds", "num_frozen_phonons")
+    ctx.require(n >= 4, f"R-SEEDREBUILD examined only {n} instances")
+    _inner_run_c19d(ctx)
